@@ -10,41 +10,41 @@ CLAIMED = {
          "static analysis: path-sensitive typestate + value-provenance abstract interpretation over go/ssa", "DESIGN.md §5 C01"),
  "C02": ("Sound static decision for every budget N>=1 (N symbolic): the retry loop performs exactly N iterations when left through its budget test (scalar-evolution arithmetic), the tested value is the node's GetMaxRetries() (or 1 without retry settings), one attempt per iteration, further attempts only after known failures, fallback exactly once iff exhausted with the last error; on the single-node and the per-item path.",
          "static analysis: scalar-evolution trip count + path-sensitive retry typestate over go/ssa", "DESIGN.md §5 C02"),
- "C03": ("Sound static decision of routing on every abstract path of Flow.Exec: start node first; each next node is exactly transitions[prev][its action]; decisions between nodes depend only on that lookup, the child's error and the context; success only when the lookup is known absent/nil; no heap effects while running; Connect overwrites per (from, action) unconditionally. Covers cycles, self-loops, re-connections and repeated runs because the rule is per step over arbitrary table contents.",
+ "C03": ("Sound static decision of routing on every abstract path of Flow.Exec: start node first; each next node is exactly transitions[prev][its action]; decisions between nodes depend only on that lookup, the child's error and the context; success only when the lookup is known absent/nil; no heap effects while running; Connect overwrites per (from, action) unconditionally; entering a flow (its own prep/post) cannot fail and keeps no state, atomics included, so a repeated run starts like the first. Covers cycles, self-loops, re-connections and repeated runs because the rule is per step over arbitrary table contents.",
          "static analysis: path-sensitive routing-provenance abstract interpretation + map-effect analysis over go/ssa", "DESIGN.md §5 C03"),
- "C04": ("Sound static decision over all abstract paths of Run that nil is returned iff post succeeded, that every error return wraps the failing callback's own error term, and that no callback follows a failing one.",
+ "C04": ("Sound static decision over all abstract paths of Run that nil is returned iff post succeeded, that every error return wraps the failing callback's own error term, that no callback follows a failing one, and that neither post nor the end of a batch run can be reached while submitted tasks may still be running callbacks.",
          "static analysis: path-sensitive error-provenance (wrap-chain) abstract interpretation over go/ssa", "DESIGN.md §5 C04"),
  "C05": ("Sound static decision over all abstract paths of the single-node Run that a context observation precedes prep and every attempt, and that every cancelled edge returns a wrapped ctx.Err() without further callbacks. Promptness/timing not decided.",
          "static analysis: path-sensitive context-observation typestate over go/ssa", "DESIGN.md §5 C05"),
- "C06": ("Sound static decision on all abstract paths of the batch run (4 configuration cases, task closure inlined at Submit): slot i is written only through the iteration's own index from the outcome of items[i]; len(results)=len(items); Wait separates the last Submit from post; post once with (items, results). Completion order is irrelevant once these hold; the memory-model visibility is taken from sync.",
+ "C06": ("Sound static decision on all abstract paths of the batch run (28-cell case split over configuration, node type and prep type; task closure inlined at Submit): slot i is written only through the iteration's own index from the outcome of items[i]; len(results)=len(items); Wait separates the last Submit from post; post once with (items, results); function-style exec runs the user's function exactly once for every item whatever the item carries. Completion order is irrelevant once these hold; the memory-model visibility is taken from sync.",
          "static analysis: path-sensitive slot-coverage/provenance abstract interpretation over go/ssa", "DESIGN.md §5 C06"),
- "C07": ("Sound static decision: continue mode has no early loop exit; exactly one exec chain per item unless cancelled; per-item chain obeys the C02 rules; the per-item path's write effects are its own slot and boolean constants to the mutex-guarded flag only; failed slots hold the last attempt's/fallback's error.",
+ "C07": ("Sound static decision: continue mode has no early loop exit; exactly one exec chain per item unless cancelled; per-item chain obeys the C02 rules; the per-item path's write effects are its own slot and boolean constants to the mutex-guarded flag only; failed slots hold the last attempt's/fallback's error; function-style exec never passes an item over; the mode setters write the mode.",
          "static analysis: path-sensitive per-item typestate + effect analysis over go/ssa", "DESIGN.md §5 C07"),
- "C08": ("Sound static decision of the structural cause of the bound and of its usability: exactly max(1,workers) worker goroutines are started (symbolic trip count) and nothing else in the package starts goroutines; each worker runs one received task at a time synchronously; item executions happen only inside submitted tasks on a pool sized by the node's configured concurrency, and in index order without a pool when concurrency<=0. Scheduling itself is not decided.",
+ "C08": ("Sound static decision of the structural cause of the bound and of its usability: exactly max(1,workers) worker goroutines are started (symbolic trip count) and nothing else in the package starts goroutines; each worker runs one received task at a time synchronously; only the worker function takes tasks off the queue; item executions happen only inside submitted tasks on a pool sized by the node's configured concurrency, and in index order without a pool when concurrency<=0. Scheduling itself is not decided.",
          "static analysis: trip-count analysis of the spawn loop + path-sensitive typestate of worker and batch dispatch over go/ssa", "DESIGN.md §5 C08"),
- "C09": ("Sound static decision: stop mode halts (sequential: no exec after a stored failure; concurrent: flag read under the mutex gates exec, failing task sets it under the mutex, mutex released on all task paths) and slot coverage: every slot is assigned an item outcome or an error on every path reaching post.",
+ "C09": ("Sound static decision: stop mode halts (sequential: no exec after a stored failure; concurrent: flag read under the mutex gates exec, failing task sets it under the mutex, mutex released on all task paths) ; Submit queues by one blocking send in the caller (start order = item order with one worker); and slot coverage: every slot is assigned an item outcome or an error on every path reaching post.",
          "static analysis: path-sensitive slot-coverage + lock-held typestate over go/ssa", "DESIGN.md §5 C09"),
- "C10": ("Sound static decision that a flow used as a node threads the parent's store and context to every child, reports the last child's action, is run by Run like any node (no type test for *Flow), and has the default one-attempt budget; with C01/C03/C04 this gives the flattening argument by induction on nesting.",
+ "C10": ("Sound static decision that a flow used as a node threads the parent's store and context to every child, reports the last child's action, is run by Run like any node (no type test for *Flow), has the default one-attempt budget, and that NewFlow keeps a flow passed as start node as that node (no look inside); with C01/C03/C04 this gives the flattening argument by induction on nesting.",
          "static analysis: path-sensitive value-provenance abstract interpretation over go/ssa", "DESIGN.md §5 C10"),
- "C11": ("Sound static decision of the structural causes: per-item/per-attempt context observation, interruptible per-item wait, every unexecuted item's slot is an error at post, mutex released on every task path and Wait before post (no hang). Wall-clock promptness and which worker holds which item are not decided.",
+ "C11": ("Sound static decision of the structural causes: per-item/per-attempt context observation, interruptible per-item wait, every unexecuted item's slot is an error at post, mutex released on every task path and Wait before post (no hang), and a batch run that saw the cancellation and ends without post returns an error wrapping ctx.Err(). Wall-clock promptness and which worker holds which item are not decided.",
          "static analysis: path-sensitive context-observation typestate + slot coverage over go/ssa", "DESIGN.md §5 C11"),
  "C12": ("Sound static decision of the pool's typestate: Add(1) dominates a blocking send of a wrapper that runs the task exactly once and signals Done exactly once afterwards on every exit; only workers receive and each runs a received task once; Wait reaches wg.Wait; Close closes a channel that makes every worker's blocking point return; nobody else touches the pool's fields. Memory visibility is the WaitGroup contract.",
          "static analysis: path-sensitive typestate over sync/channel events of the pool's functions + who-may-touch scan", "DESIGN.md §5 C12"),
- "C13": ("Sound static decision of a sufficient condition for linearizability and race freedom of the store: every access to the map happens inside exactly one critical section of the store's own mutex per operation (write-locked for mutations), balanced on all paths, no nested store calls under the lock, the internal map never escapes. Linearization points lie inside the section; Merge/Clear are single write sections.",
+ "C13": ("Sound static decision of a sufficient condition for linearizability and race freedom of the store: each operation's atomic section answers as the plain map would (per-method effect summaries, shared with C14), and every access to the map happens inside exactly one critical section of the store's own mutex per operation (write-locked for mutations), balanced on all paths, no nested store calls under the lock, the internal map never escapes. Linearization points lie inside the section; Merge/Clear are single write sections.",
          "static analysis: path-sensitive lockset / critical-section typestate over go/ssa", "DESIGN.md §5 C13"),
  "C14": ("Sound static decision that each direct method's map-effect summary equals its map operation (Set/Get/Has/Delete/Len/Clear/Merge/Keys/GetAll), that the map field only ever holds maps made by the store itself, and that snapshots are containers made in the call and not retained; by induction over operation sequences the store equals the model map.",
          "static analysis: per-method map-effect summaries compared with a specification table", "DESIGN.md §5 C14"),
- "C15": ("Sound static decision of totality (no instruction of a non-Must accessor can panic; reflect preconditions implied on every path) and of faithfulness: each accessor's extracted decision table equals the documented one for every case (absent key, nil, the 12 numeric kinds, string, bool, []any, map[string]any, other slice kinds, other types), with Go's conversion of the asserted value as result and the variant's default/zero/panic otherwise; ToSlice summary as documented. Numeric results of Go's conversions are the specification.",
+ "C15": ("Sound static decision of totality (no instruction of a non-Must accessor can panic; reflect preconditions implied on every path) and of faithfulness: each accessor's extracted decision table equals the documented one for every case (absent key, nil, the 12 numeric kinds, string, bool, []any, map[string]any, other slice kinds, other types), with Go's conversion of the asserted value as result and the variant's default/zero/panic otherwise; ToSlice summary as documented; the constructors NewResult/R/NewErrorResult hold exactly their argument. Numeric results of Go's conversions are the specification.",
          "static analysis: may-panic scan + path-sensitive reflect-precondition check + decision-table extraction vs. specification table", "DESIGN.md §5 C15"),
- "C16": ("Sound static decision that neither Bind can panic (reflect preconditions implied by path facts), that the identity copy happens exactly under type identity and copies the value itself, that otherwise json.Unmarshal receives exactly json.Marshal's output and the destination and both errors are returned, that invalid inputs end in errors, that Bind writes nothing but the destination, and that both Binds have the same outcome classes. encoding/json itself is the reference.",
+ "C16": ("Sound static decision that neither Bind can panic (reflect preconditions implied by path facts), that the identity copy happens exactly under type identity and copies the value itself, that otherwise json.Unmarshal receives exactly json.Marshal's output and the destination and both errors are returned, that invalid inputs end in errors, that Bind writes nothing but the destination, that both Binds have the same outcome classes, and that the value a Result binds is exactly its constructor's argument. encoding/json itself is the reference.",
          "static analysis: may-panic scan + path-sensitive reflect-precondition and Marshal->Unmarshal provenance check + sibling comparison", "DESIGN.md §5 C16"),
- "C17": ("Sound static decision, by compositional symbolic exploration of every producer/consumer adapter pair of function-style nodes, that the Result a phase function receives carries exactly the value the previous phase's function returned, that an error Result from exec reaches post as the identical Result (no second wrap, no strip), that batch items reach exec unwrapped, and that the Any-style wrappers of all three construction forms meet one specification (hence are interchangeable). Assumes payloads are not themselves Results (A5).",
+ "C17": ("Sound static decision, by compositional symbolic exploration of every producer/consumer adapter pair of function-style nodes, that the Result a phase function receives carries exactly the value the previous phase's function returned, that an error Result from exec reaches post as the identical Result (no second wrap, no strip), that batch items reach exec unwrapped, and that the Any-style wrappers of all three construction forms meet one specification (hence are interchangeable), and that the builders' phase methods hand the embedded node's results back unchanged. Assumes payloads are not themselves Results (A5).",
          "static analysis: compositional symbolic exploration of adapter pairs + wrapper summaries vs. specification", "DESIGN.md §5 C17"),
  "C18": ("Sound static decision that every nil-error return of Run (single, batch, empty batch) carries a provably non-empty action.",
          "static analysis: path-sensitive return-predicate analysis over go/ssa", "DESIGN.md §5 C18"),
- "C19": ("Sound static decision that the option, NodeBuilder and BatchNodeBuilder form of each setting have equal single-field effect summaries, that constructors apply every accepted option exactly once in argument order and accept the same option kinds, that option classes write disjoint fields (so any mixture is last-wins), that unconfigured nodes have the documented defaults and getters/constants agree, and that the lifecycle reads the configuration through the getters of the node being run.",
+ "C19": ("Sound static decision that the option, NodeBuilder and BatchNodeBuilder form of each setting have equal single-field effect summaries (scalar settings store their argument unconditionally and unchanged; Any-style settings install wrappers with equal path signatures), that constructors apply every accepted option exactly once in argument order and accept the same option kinds, that option classes write disjoint fields (so any mixture is last-wins), that unconfigured nodes have the documented defaults and getters/constants agree, and that the lifecycle reads the configuration through the getters of the node being run.",
          "static analysis: setter effect summaries across forms + constructor dispatch/apply-loop typestate + default summaries", "DESIGN.md §5 C19"),
- "C20": ("Sound static decision of the structural cause of the timing statement: a wait event with the node's GetWait() duration lies exactly between a failed attempt and the next (unless wait<=0 is established), none before the first or after the last attempt, every wait selects on ctx.Done(), no time.Sleep. Elapsed time itself is the time package's contract.",
+ "C20": ("Sound static decision of the structural cause of the timing statement: a wait event with the node's GetWait() duration lies exactly between a failed attempt and the next (unless wait<=0 is established), none before the first or after the last attempt, every wait selects on ctx.Done(), no time.Sleep; every form of the wait setter stores its argument unconditionally and the getter returns that field. Elapsed time itself is the time package's contract.",
          "static analysis: path-sensitive wait-event typestate over go/ssa", "DESIGN.md §5 C20"),
 }
 NA_REASON = {}
